@@ -20,6 +20,11 @@ class TemperatureFile(TemperatureArray):
 
         pressure_arr = None
         temperature_arr = None
+        self._file_args = dict(filename=filename, skiprows=skiprows,
+                               temp_col=temp_col, press_col=press_col,
+                               temp_units=temp_units,
+                               press_units=press_units,
+                               delimiter=delimiter, reverse=reverse)
 
         convertT = conversion_factor(temp_units, 'K')
         convertP = conversion_factor(press_units, 'Pa')
@@ -38,6 +43,16 @@ class TemperatureFile(TemperatureArray):
 
         super().__init__(tp_array=temperature_arr, p_points=pressure_arr)
 
+    def write(self, output):
+        temperature = super().write(output)
+        for key, value in self._file_args.items():
+            if value is None:
+                continue
+            if isinstance(value, str):
+                temperature.write_string(key, value)
+            else:
+                temperature.write_scalar(key, value)
+        return temperature
 
     @classmethod
     def input_keywords(cls):
